@@ -187,6 +187,19 @@ def scan_forbidden():
     return sorted(set(hits))
 
 
+def coqchk(prop_id):
+    """thorough tier: re-check the compiled property file and everything it depends on with the independent
+    checker; -o lists the axioms of every loaded library -> (ok, summary)"""
+    cmd = "ulimit -v 12000000; timeout 1500 coqchk -o -silent -Q theories RQ -Q Properties RQP RQP.%s" % prop_id
+    rc, out = sh(cmd + " 2>&1 | tail -40", cwd=COQ, timeout=1600)
+    m = re.search(r"\* Axioms:\s*(.*?)\n\s*\n", out, flags=re.S)
+    axioms = m.group(1).strip() if m else "<no output>"
+    clean = all(("* %s: <none>" % k) in re.sub(r"\s+", " ", out) for k in (
+        "Axioms", "Constants/Inductives relying on type-in-type", "Constants/Inductives relying on unsafe (co)fixpoints",
+        "Inductives whose positivity is assumed"))
+    return clean, {"cmd": "cd coq && " + cmd, "axioms": axioms, "tail": out[-600:]}
+
+
 def check_obligations(prop_id):
     """Compile coq/Properties/<id>.v against the freshly built theories. Every Theorem/Example in
     it is an obligation; it is discharged when the file compiles and Print Assumptions reports
